@@ -318,6 +318,13 @@ impl World {
         use crate::stransport::{Call, NextRes};
         let now = vclock::now_ms().max(0) as u64;
         // iterations of the pump loop: (a message was written, ids due at its end, id read at its start)
+        use crate::stransport::TRes;
+        let errored = log.iter().any(|c| match c {
+            Call::Ready(TRes::Err) | Call::Flush(TRes::Err) | Call::Close(TRes::Err) => true,
+            Call::Send(_, ok) => !*ok,
+            Call::Next(NextRes::Err) | Call::Next(NextRes::Eof) => true,
+            _ => false,
+        });
         let mut iters: Vec<(bool, Vec<u64>, Option<u64>)> = vec![(false, vec![], None)];
         let close_iter = |pending: &BTreeMap<u64, u64>, it: &mut (bool, Vec<u64>, Option<u64>)| {
             it.1 = pending.iter().filter(|(_, dl)| **dl <= now).map(|(i, _)| *i).collect();
@@ -352,9 +359,10 @@ impl World {
         iters.push(last);
         for j in 0..iters.len() {
             if !iters[j].0 && iters[j].1.len() >= 2 {
-                // the poll ended (end of stream, terminal error, panic) after an expiry with two or more due:
-                // the calls left unexpired show which timer came first
-                if ended {
+                // the poll ended the dispatch (end of stream, panic), or ran into a failing transport call
+                // (terminal error: what is still tracked then fails with that error instead of its deadline),
+                // after an expiry with two or more due: the calls left unexpired show which timer came first
+                if ended || errored {
                     self.ambiguous = true;
                 }
                 for later in &iters[j + 1..] {
